@@ -211,7 +211,7 @@ CLAIMS = {
         ref="§7 C13"),
     "C20": dict(
         technique="Lean 4 proof (exact simplex arithmetic for every number of samples; reassembly of a chunked map for every chunking and arrival order) + exact sampling correspondence",
-        text="Kernel-checked: for every samples ≥ 2 every grid point of both schemes gives non-negative numerators summing to the denominator (a valid coupling triple), the plain "
+        text="rot_about_isometry / swap_skew_isometry: the six triangulations of the symmetric scheme are the images of one skewed point set under rotations about a common centre and under the exchange of the two couplings, each of which keeps every distance — six congruent images. Kernel-checked: for every samples ≥ 2 every grid point of both schemes gives non-negative numerators summing to the denominator (a valid coupling triple), the plain "
              "scheme's filter removes nothing (exactly samples² points), the symmetric scheme keeps the points with x ≤ y ≤ z up to half a grid spacing, the appended centre is a valid "
              "triple; for every function, every cutting of the points into consecutive chunks and every permutation in which the workers' (chunk index, values) results arrive, sorting "
              "by chunk index and concatenating returns exactly map f points in order (hence any two schedules agree). The exact sampling model (integers over 2(samples−1)) is compared "
@@ -238,12 +238,12 @@ CLAIMS = {
         technique="Lean 4 proof (segment-intersection formula ⇔ common point over any ordered field; label broadcasting; colour alignment of the nine images; the nine clipped images of an edge add up to exactly the edge; the mask vis of plot_edges selects every image that meets the cell, so the drawn pieces add up to the whole edge; plot_plaquettes draws every needed copy of a polygon, none twice) + model/implementation correspondence of the visibility helpers and drawn copies + exact clipping oracle on the real matplotlib artists, itself compared with the model",
         text="Kernel-checked: for non-parallel segments over any linearly ordered field the helper's test 0 ≤ t1, t2 ≤ 1 holds iff the segments share a point (both directions, with the "
              "explicit parameters); the model's division-free test is 0 ≤ n/d ≤ 1; full-size labels and the same labels restricted to the subset broadcast to the same per-element "
-             "values, a scalar is the constant array; np.tile(colors, 9) puts colour i on image j of edge i for every j < 9; fractions_sum_one: for an edge starting in the unit cell and spanning less than a cell per axis, the exact clip fractions (Liang–Barsky over Q) of its nine periodic images add up to 1. meets_visible: for every generic segment (no end-point coordinate on a wall line, not through a cell corner) that meets the open unit cell, the model of `_lines_cross_unit_cell | _line_fully_in_unit_cell` (Plot.visible, the code's t = (l-end)/(start-end) with its 0<t<=1, 0<other<=1 tests) is true; frac_pos_meets + drawn_fractions_sum_one: the pieces of the nine images that the mask actually selects, clipped to the cell, add up to exactly 1 - every part of the edge is shown, none twice. needed_copies_drawn / far_copies_not_needed / polyOffsets_nodup: for any closed polygon (convex or not) with a corner in [0,1)^2, every copy shifted by (ox,oy) whose extent meets the open cell is among the copies `plot_plaquettes` draws (cyclic intermediate-value argument on the code's per-side crossing test), copies further than one cell are never needed when the polygon stays within one cell of the unit cell, and no offset is drawn twice. The visibility helpers are compared with Plot.visible on the nine images of every edge (18 000 per quick run), the offsets of the drawn polygon copies with Plot.polyOffsets on every plaquette. _broadcast_args itself is compared with the model on scalar / full / subset / wrong-size arguments x every subset form, the harness's clip fractions with the model's frac (4000 per run, exact). line_intersection is compared with the exact integer model "
+             "values, a scalar is the constant array; np.tile(colors, 9) puts colour i on image j of edge i for every j < 9; fractions_sum_one: for an edge starting in the unit cell and spanning less than a cell per axis, the exact clip fractions (Liang–Barsky over Q) of its nine periodic images add up to 1. meets_visible: for every generic segment (no end-point coordinate on a wall line, not through a cell corner) that meets the open unit cell, the model of `_lines_cross_unit_cell | _line_fully_in_unit_cell` (Plot.visible, the code's t = (l-end)/(start-end) with its 0<t<=1, 0<other<=1 tests) is true; frac_pos_meets + drawn_fractions_sum_one: the pieces of the nine images that the mask actually selects, clipped to the cell, add up to exactly 1 - every part of the edge is shown, none twice. needed_copies_drawn / far_copies_not_needed / polyOffsets_nodup: for any closed polygon (convex or not) with a corner in [0,1)^2, every copy shifted by (ox,oy) whose extent meets the open cell is among the copies `plot_plaquettes` draws (cyclic intermediate-value argument on the code's per-side crossing test), copies further than one cell are never needed when the polygon stays within one cell of the unit cell, and no offset is drawn twice; covered_point_drawn: a point of the open unit cell that lies inside a copy of the polygon shifted by (ox,oy) in the sense of the even–odd rule (and not on its boundary) lies strictly inside that copy's bounding box (a closed polygon meets a horizontal line in an even number of sides: straddle_even; an odd number of crossings to the right forces one to the left), hence that copy is among the drawn ones. The visibility helpers are compared with Plot.visible on the nine images of every edge (18 000 per quick run), the offsets of the drawn polygon copies with Plot.polyOffsets on every plaquette. _broadcast_args itself is compared with the model on scalar / full / subset / wrong-size arguments x every subset form, the harness's clip fractions with the model's frac (4000 per run, exact). line_intersection is compared with the exact integer model "
              "on random rational segment pairs in general position. On the real LineCollection / PolyCollection / scatter artists: every drawn segment is an integer translate of a "
              "selected edge, none is drawn twice, the parts inside the unit cell of the drawn images of each edge cover it exactly once (exact Liang–Barsky clipping in rational "
              "arithmetic: fractions sum to 1), colours follow the labels; every sample point of the cell inside a selected plaquette is covered by exactly one drawn polygon of that "
              "plaquette's colour; vertices at their positions; labels scalar/full/subset and subsets as slice/mask/indices give identical artists; one arrow per drawn segment.",
-        note="Partial: that a copy of a polygon whose extent misses the cell covers no point of it (region inside bounding box) is used in words, not formalised; polygon coverage and colours are additionally decided per drawn "
+        note="Partial: that two different copies of one plaquette never cover the same point (plaquettes of an embedded lattice do not overlap their own translates) and the colours of the polygons are not theorems; polygon coverage and colours are additionally decided per drawn "
              "artist by exact clipping (edges: fractions; plaquettes: every periodic image of positive clipped area must be drawn, once) and on a 17×17 generic sample grid; images with a compared quantity within 1e-9 of its threshold are excluded from the visibility tie (counted). Trusted: Lean kernel/Mathlib/standard axioms; matplotlib's rendering of the artists it is handed; harness. "
              "Parallel/colinear branches of line_intersection (tolerance based) are outside 'general position'.",
         ref="§7 C16"),
